@@ -39,6 +39,9 @@ type memCall struct {
 	aborted  bool // client went away
 	bodyEOF  bool // server read the request body to its end
 	src      io.ReadCloser
+	in       bytes.Buffer // request body bytes on "the wire", not yet read by the server
+	inEOF    bool
+	inErr    error
 
 	// response
 	hdr       http.Header
@@ -62,34 +65,45 @@ type memReqBody struct{ c *memCall }
 func (b *memReqBody) Read(p []byte) (int, error) {
 	c := b.c
 	c.mu.Lock()
-	if c.aborted {
-		c.mu.Unlock()
-		c.scancel()
-		return 0, io.ErrUnexpectedEOF
-	}
-	if c.bodyEOF {
-		c.mu.Unlock()
-		return 0, io.EOF
-	}
-	c.mu.Unlock()
-	n, err := c.src.Read(p)
-	if err == io.EOF {
-		c.mu.Lock()
-		c.bodyEOF = true
-		ab := c.aborted
-		c.mu.Unlock()
-		if ab {
-			c.scancel()
+	defer c.mu.Unlock()
+	for {
+		if c.in.Len() > 0 {
+			return c.in.Read(p)
 		}
-		return n, io.EOF
+		if c.aborted || c.inErr != nil {
+			// for the server the connection broke
+			c.scancel()
+			return 0, io.ErrUnexpectedEOF
+		}
+		if c.inEOF {
+			c.bodyEOF = true
+			return 0, io.EOF
+		}
+		c.cond.Wait()
 	}
-	if err != nil {
-		// the client's side of the body failed: for the server the
-		// connection broke
-		c.scancel()
-		return n, io.ErrUnexpectedEOF
+}
+
+// pump plays the role of http.Transport's write loop: it copies the request
+// body to "the wire" as fast as the client produces it.
+func (c *memCall) pump() {
+	buf := make([]byte, 32<<10)
+	for {
+		n, err := c.src.Read(buf)
+		c.mu.Lock()
+		if n > 0 {
+			c.in.Write(buf[:n])
+		}
+		if err == io.EOF {
+			c.inEOF = true
+		} else if err != nil {
+			c.inErr = err
+		}
+		c.cond.Broadcast()
+		c.mu.Unlock()
+		if err != nil {
+			return
+		}
 	}
-	return n, nil
 }
 
 func (b *memReqBody) Close() error { return nil }
@@ -209,8 +223,8 @@ func (t *memTransport) RoundTrip(req *http.Request) (*http.Response, error) {
 	c.src = req.Body
 	if c.src == nil {
 		c.src = io.NopCloser(bytes.NewReader(nil))
-		c.bodyEOF = true
 	}
+	go c.pump()
 	sreq, err := http.NewRequestWithContext(c.sctx, req.Method, req.URL.String(), &memReqBody{c})
 	if err != nil {
 		return nil, err
